@@ -224,6 +224,14 @@ fn parse_block_configuration_known_name(
     name: WithTokenSpan<Name>,
     start_token: TokenId,
 ) -> ParseResult<BlockConfiguration> {
+    ctx.nested(|ctx| _parse_block_configuration_known_name(ctx, name, start_token))
+}
+
+fn _parse_block_configuration_known_name(
+    ctx: &mut ParsingContext<'_>,
+    name: WithTokenSpan<Name>,
+    start_token: TokenId,
+) -> ParseResult<BlockConfiguration> {
     let block_spec = name;
     // @TODO use clauses
     let use_clauses = Vec::new();
